@@ -21,7 +21,9 @@ import (
 	"github.com/marekgalovic/anndb/storage/wal"
 
 	etcdRaft "github.com/coreos/etcd/raft"
+	"github.com/coreos/etcd/raft/raftpb"
 	badger "github.com/dgraph-io/badger/v2"
+	"github.com/golang/protobuf/proto"
 	uuid "github.com/satori/go.uuid"
 	log "github.com/sirupsen/logrus"
 	"google.golang.org/grpc"
@@ -72,8 +74,9 @@ type simNode struct {
 	// fault switches
 	mu          sync.Mutex
 	unreachable bool
-	gate        func(kind string) error // called before serving an incoming RPC; may block or fail
-	streamFault string                  // "" | "break" (a result stream fails after its first item) | "badid" (an item with a malformed id)
+	gate        func(kind string) error      // called before serving an incoming RPC; may block or fail
+	streamFault string                       // "" | "break" (a result stream fails after its first item) | "badid" (an item with a malformed id)
+	raftFault   func(m *raftpb.Message) bool // incoming raft messages for which the sender gets an error (others pass)
 }
 
 type simCluster struct {
@@ -249,6 +252,15 @@ func (c *memRaftClient) Receive(ctx context.Context, in *pb.RaftMessage, opts ..
 	}
 	if err := c.to.check("raft"); err != nil {
 		return nil, err
+	}
+	c.to.mu.Lock()
+	rf := c.to.raftFault
+	c.to.mu.Unlock()
+	if rf != nil {
+		var m raftpb.Message
+		if proto.Unmarshal(in.GetMessage(), &m) == nil && rf(&m) {
+			return nil, fmt.Errorf("sim: message %s to node %d lost", m.Type, c.to.id)
+		}
 	}
 	// like a gRPC call, the client side returns when its context ends (Send gives every message 500 ms) even if the
 	// handler is still blocked (a forwarded proposal waits in raft.Step until the receiver knows a leader)
